@@ -1,3 +1,4 @@
+import ACModel.Spec.Json
 import ACModel.Driver.Wire
 import ACModel.Model.Discretizer
 import ACModel.Spec.Discretizer
@@ -131,7 +132,10 @@ def reload (j : Json) : R Json := do
   let keyStr : Rat → String := fun q => match tbl.find? (fun p => p.1 == q) with
     | some p => p.2
     | none => ratW q
-  pure (exceptW stateW (s.reload keyStr))
+  -- hypothesis of `C06.reload_behaviour`, evaluated on the implementation's state
+  let dump := s.orders.map (fun fo => (fo.1, PJson.dumpableB keyStr fo.2))
+  let r := exceptW stateW (s.reload keyStr)
+  pure (r.mergeObj (obj [("dumpable", boolW (dump.all (·.2))), ("not_dumpable", listW Json.str ((dump.filter (fun d => !d.2)).map (·.1)))]))
 
 /-- `disc.summary`: rows of `summary(feature)` -/
 def summary (j : Json) : R Json := do
